@@ -145,10 +145,11 @@ def gen_case(rng, time_mode=None):
                 m["dyadic"] = False
     c = rng.choice([2.0, 0.5, 3.0, 4.0, 1.5, 2.0 ** -10, 2.0 ** -20, 1e-3, 1e-6, 1e-3, 1e3])
     return {
-        "rows": rows, "cols": cols, "detector": rng.choice(["CCD", "CMOS"]),
+        "rows": rows, "cols": cols, "detector": rng.choice(["CCD", "CMOS", "MKID"]),
         "temperature": rng.choice([150.0, 200.0, 250.0, 293.0]),
         "photon": photon, "qe": qe, "charge": charge, "collect": rng.random() < 0.95,
         "start": start, "partitions": parts, "time_mode": tm,
+        "reuse_order": rng.sample(range(len(parts) + 3), len(parts) + 3),
         "time_exact": time_exact and c in (2.0, 0.5, 3.0, 4.0, 1.5, 2.0 ** -10, 2.0 ** -20),
         "scale_c": c,
     }
@@ -221,14 +222,15 @@ def groups_of(case, tmpdir):
     return {k: v for k, v in g.items() if v}
 
 
-def run_exposure(case, tmpdir, times, start, nd):
-    """pixel slices [[value per pixel] per readout] of the result of the real exposure"""
+def run_exposure(case, tmpdir, times, start, nd, det=None):
+    """pixel slices [[value per pixel] per readout] of the result of the real exposure (on a fresh detector, or on
+    the detector object handed in, which may already have run other exposures)"""
     import numpy as np
     import pyx
 
     import pyxel
 
-    det = make_det(case)
+    det = det or make_det(case)
 
     res = pyxel.run_mode(mode=pyx.make_exposure(times=list(times), start_time=start, non_destructive=nd),
                          detector=det, pipeline=pyx.make_pipeline(groups_of(case, tmpdir)))
@@ -264,6 +266,11 @@ def run_impl(case):
         st2, t2 = c * start, [c * t for t in fine]
         out["d_scaled"] = run_exposure(case, tmpdir, t2, st2, False)
         out["nd_scaled"] = run_exposure(case, tmpdir, t2, st2, True)
+        # (c) the same runs once more, one after the other ON ONE detector object, in the case's random order (a user
+        # looping over schedules with the detector of the configuration): reused[k] belongs to run order[k]
+        det = make_det(case)
+        runs = runs_of(case)
+        out["reused"] = [run_exposure(case, tmpdir, runs[k][2], runs[k][1], runs[k][0], det) for k in case.get("reuse_order", [])]
         return out
     except Exception as e:  # noqa: BLE001
         return {"error": common.err_kind(e), "msg": str(e)[:300]}
@@ -322,6 +329,18 @@ def property_predicate(case, impl):
             return ("C17:destructive-proportional",
                     f"destructive frames of {fine} from {case['start']}: frame {i} (duration {st[i]}) is not proportional to frame 0 "
                     f"(duration {st[0]}): {d[i][:3]} vs {d[0][:3]}")
+    # the same exposures run one after the other on one detector object must collect what they collect on a fresh one
+    # (non-destructive: the final charge depends only on start and end time — not on what the detector did before)
+    runs, fresh = runs_of(case), impl_runs(impl)
+    for pos, (k, frames) in enumerate(zip(case.get("reuse_order", []), impl.get("reused", []))):
+        nd, st0, times = runs[k]
+        if len(frames) != len(fresh[k]) or not all(rows_close(a, b, exact) for a, b in zip(frames, fresh[k])):
+            i = next((j for j, (a, b) in enumerate(zip(frames, fresh[k])) if not rows_close(a, b, exact)), 0)
+            key = "C17:nd-partition" if nd else "C17:destructive-proportional"
+            return (key + ":reused-detector",
+                    f"{'non-' if nd else ''}destructive exposure [{st0}, {times[-1]}] with {len(times)} readouts, run as exposure #{pos + 1} on "
+                    f"one detector object: readout {i} holds {frames[i][:3]} but {fresh[k][i][:3]} on a fresh detector "
+                    f"(earlier runs on the object: {[('nd' if runs[q][0] else 'd', len(runs[q][2])) for q in case['reuse_order'][:pos]]})")
     c = case["scale_c"]
     for name, a, b in (("destructive", impl["d"], impl["d_scaled"]), ("non-destructive", impl["nd"][-1], impl["nd_scaled"])):
         for i, (fa, fb) in enumerate(zip(a, b)):
@@ -421,7 +440,8 @@ def body(ck: common.Check):
                "2x2..6x8, CCD/CMOS; one interval [start, end] split into 1..12 readouts (4-5 partitions per case) on an exact grid "
                "(1/8 s, or 2^-10…2^-23 s: intervals that are no multiples of 1 µs) or at arbitrary doubles (thirds / sevenths / "
                "n-ths of the exposure, random split points; exposures of 10 s … 3 µs, time scales 1 ms / 1 µs), non-destructive and "
-               "destructive, plus the schedule scaled by c (2, 0.5, 3, 4, 1.5, 2^-10, 2^-20, 1e-3, 1e-6, 1e3); every model function also called alone "
+               "destructive, plus the schedule scaled by c (2, 0.5, 3, 4, 1.5, 2^-10, 2^-20, 1e-3, 1e-6, 1e3); every run on a fresh "
+               "detector AND all runs of the case once more in random order on one detector object; every model function also called alone "
                "at three (Δt, time_scale) points; non-trivial = finest partition has ≥ 2 readouts")
     ck.assumptions = [
         "'does not change' (DESIGN 6b): equal as exact rationals when every model has dyadic rates; otherwise within 1e-12 relative",
